@@ -2,13 +2,14 @@
 Proof (coq/C01): resolve_entity (chr domain explicit, caught exceptions regenerated from util.py), compute_path with the
 de-duplication of states by (apocount, bold, italic) (<=32 states kept, fan-out <=6, <=192 states generated per step, path length =
 number of counts, for every tie-breaking order), and — coq/C01/Passes.v, ProofsPasses.v — the index-walking loops of the
-refinement passes with explicit termination measures.
+refinement passes with explicit termination measures (ParseSections/Lines/Paragraphs/SingleQuote/Urls, ParsePreformatted, TableCell/Row/TableParser).
 Tie: extracted models vs the real code: resolve_entity on entity strings; compute_path on count lists (real path is a successor chain
 of the model, states per step measured on the real code <= 192 and equal to the model's when no cut can occur, each case under a CPU
 budget); the passes on abstract token lists (vt/harness/c01_passes.py, c01_passtie.py).
 Search: grammar/mutation strings over the whole wikitext alphabet x 12 languages x template universes, plus the deterministic
-families `attrnum` (number-like Unicode attribute values x every construct that takes attributes) and `quoteruns` (10..60 apostrophe
-runs on one line); oracle = parse_string returns an Article, raises nothing, stays within the CPU budget C0 + C*n^2."""
+families `attrnum` (number-like Unicode attribute values x every construct that takes attributes), `quoteruns` (10..60 apostrophe
+runs on one line), `reparse` (wiki databases whose pages re-parse themselves through every re-parsing tag extension, direct and mutual cycles;
+`reparse-fanout` with >= 2 recursive edges per page) and `longdigits` (a 4301-digit string at every numeric position); oracle = parse_string returns an Article, raises nothing, stays within the CPU budget C0 + C*n^2 + Cdb*ndb (ndb = size of the wiki database)."""
 import collections
 import concurrent.futures as cf
 import json
@@ -21,9 +22,9 @@ from vt.harness import c01_gen as G
 
 LEVEL = "proof"
 NSHARDS = 16
-# two input classes hit defects of /repo whose proposed patches (fixes/C01-imagemap-long-digits.diff, fixes/C01-nested-parse-work.diff) are
-# not committed yet: they are generated only when this is set.  Make it the default once the fixes are in /repo.
-OPEN_DEFECTS = os.environ.get("VERIF_C01_OPEN_DEFECTS", "0") == "1"
+# two input classes found defects of /repo that are fixed since (imagemap coordinates beyond the 4300-digit int() limit; cycles that re-parse
+# a page >= 2 times per level: MAX_NESTED_WORK).  On by default; VERIF_C01_OPEN_DEFECTS=0 leaves them out (to look at an older tree).
+OPEN_DEFECTS = os.environ.get("VERIF_C01_OPEN_DEFECTS", "1") == "1"
 
 SEEDS = ["{{#switch:|}}", "&#99999999999;", "<nowiki>&#99999999999;</nowiki>", "&#xFFFFFFFFF;", "&#-1;", "&#x110000;", "&#0;", "&#xD800;", "[[&#xD800;]]",
          "<pre>&#99999999999;</pre>", "<inputbox/>", "<inputbox>x</inputbox>", "{{rec}}", "<ref>{{#ifexist:X|y|n}}</ref>",
@@ -39,9 +40,11 @@ def _run_lines(src, lines, timeout):
     return core.run_impl("vt.harness.c01_search", ["search"], src=src, input="".join(lines), timeout=timeout)
 
 
-def _solo(src, case):
+def _solo(src, case, call_depth=None):
     """re-run one input alone (fresh interpreter, faulthandler on); returns result dict"""
     env = core.impl_env(src)
+    if call_depth is not None:
+        env["C01_CALL_DEPTH"] = str(call_depth)
     last = {"id": case["id"], "ok": True, "exc": None, "frame": None, "msg": "no result", "cpu": 0, "n": len(case["raw"]), "nexp": 0, "fp": None}
     for _ in range(3):
         p = subprocess.run([core.PY, "-X", "faulthandler", "-m", "vt.harness.c01_search", "search"], input=json.dumps(case) + "\n",
@@ -177,10 +180,10 @@ def gen_inputs(run):
     # long digit strings (above the interpreter's 4300-digit int<->str limit) at every numeric position; exempt from the 400-char cap
     for i, raw in enumerate(G.longdigit_family(run.tier)):
         if "<imagemap" in raw and not OPEN_DEFECTS and len(raw) > G.INT_MAX_STR_DIGITS:
-            continue        # known open defect (fixes/C01-imagemap-long-digits.diff): generated only with VERIF_C01_OPEN_DEFECTS=1
+            continue        # left out only with VERIF_C01_OPEN_DEFECTS=0
         add(raw, G.LANGS[i % 12], G.TEMPLATE_UNIVERSES[2] if "{{" in raw else None, "longdigits")
     if OPEN_DEFECTS:
-        # fan-out >= 2 cycles: 2^40 nested parses on a tree without a total bound (fixes/C01-nested-parse-work.diff)
+        # fan-out >= 2 cycles: 2^40 nested parses on a tree without a total bound on the nested work (core.MAX_NESTED_WORK)
         for i in range(60 if quick else 600):
             raw, db = G.reparse_case(rng, 100, fanout=rng.choice([2, 2, 3]))
             add(raw, G.LANGS[i % 12], db, "reparse-fanout")
@@ -221,10 +224,14 @@ def search(run, src):
     worst = (0.0, None)
     missing = 0
     excluded = 0
+    skipped = 0
     for c in cases:
         r = results.get(c["id"])
         if r is None:
             missing += 1
+            continue
+        if r.get("skipped"):
+            skipped += 1
             continue
         n = max(r["n"], r["nexp"])
         nontrivial = any(ch in c["raw"] for ch in "[{<'=|&*#:;\n")
@@ -232,7 +239,7 @@ def search(run, src):
         dist[c["kind"]] += 1
         langs[c["lang"]] += 1
         sizes["<=50" if n <= 50 else "<=400" if n <= 400 else "<=2000" if n <= 2000 else ">2000"] += 1
-        frac = r["cpu"] / (3.0 + 2e-6 * n * n)
+        frac = r["cpu"] / (r.get("budget") or (3.0 + 2e-6 * n * n))
         if frac > worst[0] and not r.get("fp"):
             worst = (frac, {"cpu_s": r["cpu"], "n": n, "raw_head": c["raw"][:80]})
         if r.get("excluded"):
@@ -242,6 +249,7 @@ def search(run, src):
         elif len(run.samples) < 5 and c["kind"] in ("grammar", "deep") and len(c["raw"]) < 160:
             run.sample({"raw": c["raw"], "lang": c["lang"], "templates": sorted(c["db"]) if c["db"] else None, "cpu_s": r["cpu"]})
     run.obligation("search-harness-complete", missing == 0, "%d inputs without a result" % missing)
+    run.obligation("search-not-cut-short", skipped == 0, "%d inputs skipped after a worker saw 25 over-budget inputs with one fingerprint" % skipped)
     byid = {c["id"]: c for c in cases}
     for fp in sorted(by_fp):
         _, cid = min(by_fp[fp])
@@ -258,7 +266,8 @@ def search(run, src):
                                           "max_length": maxlen, "template_universes": len(G.TEMPLATE_UNIVERSES),
                                           "recursion_errors_excluded_because_expanded_nesting_exceeds_40": excluded,
                                           "failing_fingerprints": {k: len(v) for k, v in by_fp.items()}}
-    run.coverage["cpu_budget"] = {"formula": "3.0 s + 2e-6 s * n^2 (CPU, n = max(len(raw), len(expanded text)))",
+    run.coverage["cpu_budget"] = {"formula": "3.0 s + 2e-6 s * n^2 + 0.02 s * ndb (CPU; ndb = characters of page names and texts in the wiki database, "
+                                             "n = max(len(raw), len(expanded text), ndb))",
                                   "worst_fraction_of_budget_used_by_a_passing_input": round(worst[0], 4), "that_input": worst[1]}
 
 
@@ -268,9 +277,18 @@ def check(run):
                 "bound + every number-like character (ASCII, Unicode digits that int() rejects, decimal digits of other scripts incl. non-BMP, "
                 "fractions/roman/ideographic numbers) as attribute value with sign/whitespace/quoting variants in every construct that takes "
                 "attributes (HTML tags, table/row/cell/caption modifiers, extension tags, #tag, image options) + one line with 10..60 apostrophe "
-                "runs of lengths 2..6 after each opener (plain / runs from a template) + random inputs: recursive grammar (sections, lists, tables, HTML blocks, extension elements, styles, links, refs, "
-                "templates), 1-4 random mutations of grammar outputs, token soup, one construct nested 5..40 deep, short units repeated, random attribute constructs, random lines of 10..60 quote runs; "
-                "each with one of 12 languages and one of 8 template universes (none, empty, or pages incl. self-recursive ones); "
+                "runs of lengths 2..6 after each opener (plain / runs from a template) + wiki databases in which a page re-parses itself: a cycle of 1..3 pages "
+                "closed through EVERY re-parsing tag extension (ref, poem, gallery caption and line, pages by number and by title, imagemap, rot13, nowiki, "
+                "named ref) and through #tag:ref/poem/pages and plain calls, direct and mutual (every ordered pair of recursing wrappers), entered by the "
+                "article through the same wrapper or a plain call, in a language with and one without a Page namespace; random cycles of 1..4 pages with one "
+                "recursive edge per page amid grammar text, and (family reparse-fanout) with 2-3 recursive edges per page + a long digit string (4301 digits "
+                "= one above the interpreter's int<->str limit; thorough also 4300, 4990, leading zeros, 1 followed by 4300 zeros) at EVERY numeric position: "
+                "each maximal digit run of each construct of a pool of ~260 constructs (attribute values of every attribute context, image options, imagemap "
+                "coordinates, gallery/pages/table/list/font attributes, entities, magic links, timeline scripts, ~120 parser-function / template argument "
+                "positions, short expressions with long results such as 10^4500) replaced one at a time - this family is EXEMPT from the 400-character cap of "
+                "the quick tier (inputs of 4.3-5 k characters, the thorough bound) + random inputs: recursive grammar (sections, lists, tables, HTML blocks, extension elements, styles, links, refs, "
+                "templates), 1-4 random mutations of grammar outputs, token soup, one construct nested 5..40 deep, short units repeated, random attribute constructs, random lines of 10..60 quote runs, random self-re-parsing wikis; "
+                "each with one of 12 languages and one of 9 template universes (none, empty, or pages incl. self-recursive ones through ref/poem/gallery/pages); "
                 "syntactic nesting measure <= 40; distinct = distinct (raw, lang, universe); non-trivial = contains a markup character")
     run.trusted = ["Coq 8.16.1 kernel (coqc); vm_compute in Examples/finite obligations only",
                    "extraction (ExtrOcamlBasic directives only) + ocaml/c01/driver.ml",
@@ -282,13 +300,19 @@ def check(run):
                    "CPU time as reported by time.process_time / ITIMER_VIRTUAL",
                    "pass loop models: abstraction of tokens to the kinds the loops branch on; functional encoding of two aliasing sites "
                    "(the open-section stack of ParseSections, the styles list of ParseSingleQuote); compute_path as a parameter of the "
-                   "ParseSingleQuote model (replayed in call order in the tie) — all covered by the differential runs"]
+                   "ParseSingleQuote model (replayed in call order in the tie) — all covered by the differential runs",
+                   "table / preformatted loop models (coq/C01/PassesPre.v, PassesTable.v): util.parse_params / Token.join_as_text (modifier -> vlist) and "
+                   "core.TagParser for <caption> inside make_table are not modelled (exercised by the search on real wikitext only); the token kinds "
+                   "cover everything these loops branch on (type, blocknode, tagname, rawtagname, text None / blank / column mark); ParsePreformatted's "
+                   "tree walk (get_token_walker) is not modelled, only run() on one list"]
     run.assumptions = ["inputs are sequences of Unicode scalar values (no lone surrogates in the raw text), length <= 400 (quick) / 5000 (thorough); "
-                       "the deterministic quote-run lines are up to 660 characters in both tiers",
+                       "the deterministic quote-run lines are up to 660 characters and the long-digit family up to ~5100 characters in both tiers",
                        "syntactic nesting <= 40, of the raw text and of the text after template expansion (deeper nesting exhausts the interpreter "
                        "stack by construction and is excluded by the property): a RecursionError on an input whose expanded text nests "
                        "deeper is counted as excluded, not as a violation",
-                       "time budget 3 s + 2e-6 s*n^2 CPU stands for 'polynomial, no blow-up'"]
+                       "time budget 3 s + 2e-6 s*n^2 + 0.02 s*ndb CPU stands for 'polynomial, no blow-up' (n = max of raw length, expanded length and ndb = size of the "
+                       "wiki database, which is part of the input; the linear term covers the bounded number (MAX_PARSE_DEPTH, MAX_NESTED_WORK) of nested parses "
+                       "that database pages can cause, each linear in the page text)"]
     src = core.snapshot()
     try:
         proofs(run, src)
@@ -441,5 +465,15 @@ def replay(obj):
     r = _solo(src, case)
     print(json.dumps(r))
     bad = bool(r.get("fp"))
+    if not bad and "RecursionError" in str(rp.get("fp")):
+        # whether a stack overflow escapes depends on where it strikes, i.e. on the caller's stack depth (the property quantifies over callers):
+        # try a few more caller depths than the search's standard one
+        for d in (41, 42, 43, 45, 50):
+            r = _solo(src, case, call_depth=d)
+            if r.get("fp"):
+                print(json.dumps(r))
+                print("(reproduced with %d caller frames instead of 40)" % d)
+                bad = True
+                break
     print("REPRODUCED" if bad else "not reproduced")
     return 1 if bad else 0
